@@ -109,25 +109,28 @@ func (m ViewMap) DisposeTemporaryTable(tablePath parser.QueryExpression) bool {
 }
 
 func (m ViewMap) Dispose(container *file.Container, identifier string) error {
+	var err error
 	if view, ok := m.Load(identifier); ok {
 		if view.FileInfo.Handler != nil {
-			if err := container.Close(view.FileInfo.Handler); err != nil {
-				return err
-			}
+			err = container.Close(view.FileInfo.Handler)
 		}
+		// The entry is evicted whatever the release of its files reports: a cached table must not outlive
+		// the transaction because a lock file could not be removed.
 		m.Delete(identifier)
 	}
-	return nil
+	return err
 }
 
+// Clean disposes every entry and returns the first error that occurred.
 func (m ViewMap) Clean(container *file.Container) error {
 	keys := m.Keys()
+	var err error
 	for _, k := range keys {
-		if err := m.Dispose(container, k); err != nil {
-			return err
+		if e := m.Dispose(container, k); e != nil && err == nil {
+			err = e
 		}
 	}
-	return nil
+	return err
 }
 
 func (m ViewMap) CleanWithErrors(container *file.Container) error {
